@@ -655,6 +655,68 @@ func c15r36(c *Ctx, r *Report) {
 	r.floor("stores into Terminal.headerVisible in Terminal.Loop", n, 3)
 }
 
+// c15r37: resizeWindows gives the input section a window of its own not only under --input-border but whenever a
+// header window exists. Showing or hiding the input then adds or removes that window, which only a full redraw
+// does (D121: show-input / hide-input / toggle-input repainted the existing windows only; resizeIfNeeded caught
+// the --input-border case alone: with --header-border, show-input drew prompt and info inside the list window,
+// above the header box instead of below it).
+func c15r37(c *Ctx, r *Report) {
+	l := c.L
+	r.rule("C15-R37", "A (an input window that has to come or go asks for a full redraw)", "P1",
+		"in Terminal.Loop and its closures, every path from a store into Terminal.inputless to a return passes a nil test of Terminal.inputWindow, and a request of reqFullRedraw is control dependent on such a test",
+		"after show-input / hide-input with a header window, prompt and info are drawn in the wrong place (or the header rows in reverse order)")
+	loop := l.Fn("fzf", "(*Terminal).Loop")
+	fLess := l.Field("fzf", "Terminal", "inputless")
+	fIW := l.Field("fzf", "Terminal", "inputWindow")
+	kF := l.Const("fzf", "reqFullRedraw")
+	if loop == nil || fLess == nil || fIW == nil || kF == nil {
+		r.unest("anchors", token.NoPos, nil, "anchors Terminal.Loop / inputless / inputWindow / reqFullRedraw", "cannot resolve")
+		return
+	}
+	vf, _ := constantInt64(kF)
+	isWinTest := func(in ssa.Instruction) bool {
+		bo, ok := in.(*ssa.BinOp)
+		if !ok || (bo.Op != token.EQL && bo.Op != token.NEQ) {
+			return false
+		}
+		for _, side := range []ssa.Value{bo.X, bo.Y} {
+			if f, _ := loadedField(side); f == fIW {
+				return true
+			}
+		}
+		return false
+	}
+	cc := cdCache{}
+	n, redraw := 0, 0
+	for _, g := range withClosures(loop) {
+		eachInstr(g, func(in ssa.Instruction) {
+			if requestsEvent(in, vf) {
+				for cond := range cc.of(in) {
+					for v := range backwardSlice(cond, nil, nil) {
+						if vi, ok := v.(ssa.Instruction); ok && isWinTest(vi) {
+							redraw++
+						}
+					}
+				}
+			}
+			st, ok := in.(*ssa.Store)
+			if !ok {
+				return
+			}
+			if f, _ := fieldOf(st.Addr); f != fLess {
+				return
+			}
+			n++
+			hit := pathAvoiding(st, isReturn, isWinTest, nil)
+			r.check(hit == nil, fmt.Sprintf("%s:change #%d of the input's visibility looks at the input window", relName(loop), n), st.Pos(), g,
+				"t.inputWindow is compared with what the layout needs", "the input is shown or hidden with a repaint of the existing windows only")
+		})
+	}
+	r.check(redraw >= 1, relName(loop)+":a full redraw is requested when the input window has to come or go", loop.Pos(), loop,
+		"req(reqFullRedraw) under a test of t.inputWindow", "no request of a full redraw depends on whether the input window exists")
+	r.floor("stores into Terminal.inputless in the action handlers", n, 3)
+}
+
 func round12(c *Ctx, r *Report, prop string) {
 	switch prop {
 	case "C06":
@@ -679,6 +741,7 @@ func round12(c *Ctx, r *Report, prop string) {
 		c15r34(c, r)
 		c15r35(c, r)
 		c15r36(c, r)
+		c15r37(c, r)
 		c14r22(c, r) // no counted character is filtered out by a wider test than the C0/C1 ranges
 	}
 }
